@@ -258,7 +258,7 @@ func startWorker(self string, u *Unit) (*workerProc, error) {
 	}
 	tags := u.Tags
 	if tags == "" {
-		tags = "purego,verif"
+		tags = "purego,verif,math_big_pure_go"
 	}
 	var ovs []string
 	for _, o := range u.Overlay {
